@@ -39,7 +39,7 @@ def run(ctx):
                  ("C13-R4", "a restricted view has the storage's own membership")]:
         ctx.rule(r, t)
     for cfg in configs(ctx.tier):
-        facts = ctx.facts(cfg)
+        facts = ctx.xfacts(cfg)
         c03.run_config(ctx, facts, R1="C13-R1", R2="C13-R1", only="storage::restrict::", anchors=ANCH, site_floor=3)
         r1_mask(ctx, facts)
         r2(ctx, facts)
@@ -149,11 +149,8 @@ def r4(ctx, facts):
     ctx.floor("C13-R4", "join open() impls of restricted storages", len(opens), 4)
     for b in opens:
         # component 0 of the returned tuple is self.bitset
-        ok = False
-        for d in b.defs().get(0, []):
-            if d[0] == "stmt" and d[4]["k"] == "aggregate" and d[4].get("tuple"):
-                o = b.operand_origin(d[4]["ops"][0])
-                ok = o[0] == "param" and o[1] == 1 and o[2][:1] == ("bitset",)
+        ros = b.ret_origins(0)
+        ok = bool(ros) and all(o[0] == "param" and o[1] == 1 and o[2][:1] == ("bitset",) for o in ros)
         ctx.ob("C13-R4", "%s returns the view's mask" % b.path, ok, b.loc(), "" if ok else "open() does not return self.bitset as the join mask")
     bad = []
     for b in facts.bodies:
